@@ -36,8 +36,12 @@ MANIFEST = {
             "point location is compared with analytic membership away from surfaces.",
     "design_ref": "DESIGN.md §6 C09",
     "note": "Proved at ℝ (rounding not modelled); the within-tolerance perturbations of "
-            "SurfaceSimplifier (snapping) are modelled and diffed, not proved; rotations "
-            "(SurfaceTransformer), GenPrism/GenTrap, Involute, polycones are not modelled; sincos(Turn) "
+            "SurfaceSimplifier (snapping) are modelled and diffed, not proved; rotations and "
+            "reflections (SurfaceTransformer, bbox rotation, transform composition) are modelled, "
+            "diffed bit-exactly and proved (sense_transform, emit_transform, sound_transformed); "
+            "GenPrism/GenTrap emission (planar and twisted faces, degenerate faces, constructor "
+            "validation) is modelled and diffed, its soundness is oracle-only; promised boxes are linked "
+            "to the BZone algebra over ℝ∪{±∞}; Involute and polycones are not modelled; sincos(Turn) "
             "values are oracle inputs checked by the harness. ",
 }
 
@@ -191,7 +195,7 @@ def rnd_turn(rng, lo, hi, open_lo=False):
 
 
 def gen_region(rng, kinds=None, thin=True):
-    kinds = kinds or ["box", "sphere", "cyl", "cone", "ellipsoid", "prism", "ppiped", "wedge"]
+    kinds = kinds or ["box", "sphere", "cyl", "cone", "ellipsoid", "prism", "ppiped", "wedge", "genprism"]
     t = rng.choice(kinds)
     L = lambda: rnd_len(rng, thin)
     if t == "box":
@@ -233,7 +237,80 @@ def gen_region(rng, kinds=None, thin=True):
     if t == "wedge":
         return {"type": t, "p": [rnd_turn(rng, 0.0, 0.999), rnd_turn(rng, 0.0, 0.5, open_lo=True)
                                  if rng.chance(4, 5) else 0.5]}
+    if t == "genprism":
+        return gen_genprism(rng, thin)
     raise ValueError(t)
+
+
+def gen_genprism(rng, thin=True):
+    """GenPrism / GenTrap: trd, skewed trap, twisted n-gon, pyramid (degenerate face); both
+    vertex orders"""
+    hz = rnd_len(rng, thin)
+    k = rng.below(6)
+    if k == 0:      # trd: two centred rectangles
+        a, b, c, d = (rnd_len(rng, False) for _ in range(4))
+        lo = [[a, -b], [a, b], [-a, b], [-a, -b]]
+        hi = [[c, -d], [c, d], [-c, d], [-c, -d]]
+    elif k == 1:    # trap: sheared faces with an offset between them
+        def face(hxl, hxh, hy, sh, ox, oy):
+            return [[ox - sh + hxl, oy - hy], [ox + sh + hxh, oy + hy], [ox + sh - hxh, oy + hy],
+                    [ox - sh - hxl, oy - hy]]
+        s = rnd_len(rng, False)
+        ox, oy = (rng.unit() - 0.5) * s, (rng.unit() - 0.5) * s
+        lo = face(s * (0.5 + rng.unit()), s * (0.5 + rng.unit()), s * (0.5 + rng.unit()),
+                  s * (rng.unit() - 0.5) * 0.6, -ox, -oy)
+        hi = face(s * (0.5 + rng.unit()), s * (0.5 + rng.unit()), s * (0.5 + rng.unit()),
+                  s * (rng.unit() - 0.5) * 0.6, ox, oy)
+    else:           # (twisted) regular n-gons
+        n = rng.choice([3, 4, 4, 5, 6])
+        r1, r2 = rnd_len(rng, False), rnd_len(rng, False)
+        if k == 2:
+            r2 = r1
+        ph = rng.unit() * 2 * math.pi
+        tw = 0.0 if k in (2, 3) else (rng.unit() - 0.5) * 1.2
+        lo = [[r1 * math.cos(ph + 2 * math.pi * i / n), r1 * math.sin(ph + 2 * math.pi * i / n)]
+              for i in range(n)]
+        hi = [[r2 * math.cos(ph + tw + 2 * math.pi * i / n), r2 * math.sin(ph + tw + 2 * math.pi * i / n)]
+              for i in range(n)]
+        if k == 5:   # pyramid: one face collapses to a point
+            apex = [(rng.unit() - 0.5) * r1, (rng.unit() - 0.5) * r1]
+            if rng.chance(1, 2):
+                hi = [list(apex) for _ in range(n)]
+            else:
+                lo = [list(apex) for _ in range(n)]
+    if rng.chance(1, 3):
+        lo, hi = lo[::-1], hi[::-1]
+    return {"type": "genprism", "n": len(lo), "p": [hz] + [v for q in lo for v in q] + [v for q in hi for v in q]}
+
+
+def genprism_polys(reg):
+    """(hz, lo, hi) with counter-clockwise vertex order (as the constructor normalises)"""
+    n, q = reg["n"], reg["p"]
+    hz = q[0]
+    lo = [q[1 + 2 * i:3 + 2 * i] for i in range(n)]
+    hi = [q[1 + 2 * n + 2 * i:3 + 2 * n + 2 * i] for i in range(n)]
+
+    def orient(c):
+        v = (c[1][0] - c[0][0]) * (c[2][1] - c[1][1]) - (c[1][1] - c[0][1]) * (c[2][0] - c[1][0])
+        return -1 if v < 0 else 1 if v > 0 else 0
+    if orient(lo) == -1 or orient(hi) == -1:
+        lo, hi = lo[::-1], hi[::-1]
+    return hz, lo, hi
+
+
+def genprism_mem(reg, p):
+    hz, lo, hi = genprism_polys(reg)
+    x, y, z = p
+    if abs(z) > hz:
+        return False
+    s = (z + hz) / (2 * hz)
+    n = len(lo)
+    v = [[lo[i][0] + (hi[i][0] - lo[i][0]) * s, lo[i][1] + (hi[i][1] - lo[i][1]) * s] for i in range(n)]
+    for i in range(n):
+        a, b = v[i], v[(i + 1) % n]
+        if (b[0] - a[0]) * (y - a[1]) - (b[1] - a[1]) * (x - a[0]) < 0:
+            return False
+    return True
 
 
 def region_turns(reg):
@@ -253,11 +330,20 @@ class SinCos:
 
     def need(self, turns):
         todo = sorted({hx(t) for t in turns} - set(self.tab))
-        if todo:
+        import time
+        for _attempt in range(5):
+            if not todo:
+                break
+            if _attempt:
+                time.sleep(2.0 * _attempt)      # the harness binary may be being relinked by a parallel check
             _, out = vlib.run_lines([self.exe], ["sincos " + t for t in todo])
             for t, o in zip(todo, out):
                 w = o.split()
-                self.tab[t] = (w[0], w[1])
+                if len(w) == 2 and is_hex16(w[0]) and is_hex16(w[1]):
+                    self.tab[t] = (w[0], w[1])
+            todo = [t for t in todo if t not in self.tab]
+        if todo:
+            raise RuntimeError("harness did not answer sincos for " + " ".join(todo))
 
     def get(self, t):
         s, c = self.tab[hx(t)]
@@ -268,6 +354,8 @@ def region_words(reg, sc):
     t, p = reg["type"], reg["p"]
     if t == "prism":
         return "prism %d %s" % (reg["n"], " ".join(hx(v) for v in p))
+    if t == "genprism":
+        return "genprism %s %d %s" % (hx(p[0]), reg["n"], " ".join(hx(v) for v in p[1:]))
     w = t + " " + " ".join(hx(v) for v in p)
     for a in region_turns(reg):
         s, c = sc.get(a)
@@ -318,6 +406,8 @@ def region_mem(reg, p):
         return True
     if t == "ppiped":
         return ppiped_mem(q, p, documented=True)
+    if t == "genprism":
+        return genprism_mem(reg, p)
     if t == "wedge":
         ss, cs = sincos_turn(q[0])
         se, ce = sincos_turn(q[0] + q[1])
@@ -351,6 +441,8 @@ def region_extent(reg):
         return max(q[0] * 1.5, q[1])
     if t == "ppiped":
         return q[0] + (q[1] + q[2]) * 1.6
+    if t == "genprism":
+        return max(abs(v) for v in q)
     return max(q)
 
 
@@ -448,7 +540,8 @@ def gen_object(rng, depth=0):
     """object tree for the end-to-end oracle"""
     k = rng.below(10) if depth < 2 else rng.below(5)
     # the parallelepiped has its own (known) findings: only as a top-level shape
-    kinds = ["box", "sphere", "cyl", "cone", "ellipsoid", "prism"] + (["ppiped"] if depth == 0 else [])
+    kinds = ["box", "sphere", "cyl", "cone", "ellipsoid", "prism", "genprism"] + (
+        ["ppiped"] if depth == 0 else [])
     if k < 4:
         return {"k": "shape", "r": gen_region(rng, kinds, thin=False)}
     if k == 4:
@@ -485,6 +578,8 @@ def gen_object(rng, depth=0):
 
 
 def region_plain_words(reg):
+    if reg["type"] == "genprism":
+        return "genprism %s %d %s" % (hx(reg["p"][0]), reg["n"], " ".join(hx(v) for v in reg["p"][1:]))
     if reg["type"] == "prism":
         return "prism %d %s" % (reg["n"], " ".join(hx(v) for v in reg["p"]))
     return reg["type"] + " " + " ".join(hx(v) for v in reg["p"])
@@ -1073,8 +1168,8 @@ def run_part(ctx):
         "are modelled for non-NaN arguments; the surface hash grid of LocalSurfaceInserter is "
         "modelled as `every soft-equal candidate is found`",
         "probe points are kept farther than 10·tol·max(1, size) from every emitted surface (first "
-        "order distance estimate); rotations, GenPrism/GenTrap, Involute, polycones are outside the "
-        "Lean model (GenPrism only through the end-to-end oracle)",
+        "order distance estimate); Involute and polycones are outside the Lean model; GenPrism "
+        "soundness (ruled side faces = interpolated cross-sections) is checked by the oracles only",
     ]
     cov.update({
         "solids_corpus_ops": n_corpus, "solids_build_ops": len(lines), "solids_member_ops": n_mem, "solids_member_points": n_mem_eval,
@@ -1098,9 +1193,11 @@ def run(ctx):
         + cov.get("solids_simplify_ops", 0) + cov.get("solids_e2e_points", 0)
         + cov.get("solids_bbox_points", 0),
         "distinct_nontrivial": cov.get("solids_build_ops", 0) + cov.get("solids_e2e_geometries", 0),
-        "rule": "random regions of 8 classes over lengths 1e-5..1e3 (thin/flat included), tolerances "
-                "1.5e-8..1e-3, no/integer/tiny/random translations; random surfaces for the simplifier; "
-                "object trees (shape, hollow/sliced solid, translated, neg, all, any, sub) of depth <= 3 "
+        "rule": "random regions of 9 classes (incl. GenPrism: trd, trap, twisted, pyramids, both vertex "
+                "orders) over lengths 1e-5..1e3 (thin/flat included), tolerances 1.5e-8..1e-3, no/integer/"
+                "tiny/random translations and rotations/reflections/signed permutations/tiny rotations; "
+                "random surfaces for the simplifier and the surface transformer; object trees (shape, "
+                "hollow/sliced solid, translated, transformed, neg, all, any, sub) of depth <= 3 "
                 "for the end-to-end oracle; distinct = op lines generated (all distinct by construction "
                 "of continuous parameters), non-trivial = not answered bad-op",
         "samples": cov.get("solids_samples", []),
